@@ -1,13 +1,14 @@
-\* C23 leg A quick: one series rf 1..5, two series rf 2 on 3 nodes, outcomes ok/conflict/unavailable.
+\* C23 leg A quick: one series rf 1..4, two series rf 2 on 3 nodes, outcomes ok/conflict/unavailable.
 \* cases: one series rf 1..4 (all multisets x arrangements), replicated rf 1..3
 SPECIFICATION Spec
-CONSTANTS RF1 = {1, 2, 3, 4, 5}
+CONSTANTS RF1 = {1, 2, 3, 4}
           RF2 = {2}
           N2 = 3
-          Outcomes = {"ok", "conflict", "unavailable"}
+          Outcomes = {"ok", "conflict", "unavailable", "notready"}
           ReplThresholdIsQuorum = FALSE
           WithTimeout = FALSE
           CaseRF1 = {1, 2, 3, 4}
+          CaseRFLocal = {1, 2, 3}
           CaseRF2 = {}
           CaseOutcomes = {"ok", "conflict", "unavailable"}
 INVARIANTS C22Inv C23Inv OrderIndependent EarlyOnlyWhenDetermined
